@@ -496,12 +496,354 @@ fn role_gates(cfg: &Cfg, rep: &mut Report) {
     }
 }
 
+
+// ------------------------------------------------------------------------------------------
+// Long-lived controllers: random schedule / cancel / admin-call / execute_op / ledger histories
+// against a model of (operation table, minimum delay, role table).
+
+#[derive(Clone, PartialEq, Debug)]
+enum Call {
+    Delay(u32),
+    Grant(usize, usize),
+    Revoke(usize, usize),
+    SetRoleAdmin(usize),
+    Bump(u32),
+}
+const ROLES: [&str; 3] = ["proposer", "canceller", "executor"];
+
+struct MOp {
+    call: Call,
+    pred: BytesN<32>,
+    pred_idx: Option<usize>, // None: no predecessor (zero) or an id nobody scheduled
+    salt: u8,
+    id: BytesN<32>,
+    ready: u32,
+    state: u8, // 0 unset (cancelled), 1 pending, 3 done
+}
+
+struct Long {
+    su: Setup,
+    acc: [Address; 4],
+    target: Address,
+    has: [[bool; 3]; 4],
+    min_delay: u32,
+    counts: [u32; 3],
+    ops: std::vec::Vec<MOp>,
+}
+
+impl Long {
+    fn call_parts(&self, c: &Call) -> (Address, &'static str, SVec<Val>) {
+        let e = &self.su.w.env;
+        match c {
+            Call::Delay(d) => (self.su.c.clone(), "update_delay", args!(e, *d)),
+            Call::Grant(a, r) => (self.su.c.clone(), "grant_role", args!(e, self.acc[*a], Symbol::new(e, ROLES[*r]), self.su.c)),
+            Call::Revoke(a, r) => (self.su.c.clone(), "revoke_role", args!(e, self.acc[*a], Symbol::new(e, ROLES[*r]), self.su.c)),
+            Call::SetRoleAdmin(r) => (self.su.c.clone(), "set_role_admin", args!(e, Symbol::new(e, ROLES[*r]), Symbol::new(e, "boss"))),
+            Call::Bump(k) => (self.target.clone(), "bump", args!(e, *k)),
+        }
+    }
+    fn executors_configured(&self) -> bool {
+        self.has.iter().any(|h| h[2])
+    }
+    fn pred_done(&self, op: &MOp, zero: &BytesN<32>) -> bool {
+        if &op.pred == zero {
+            return true;
+        }
+        match op.pred_idx {
+            Some(i) => self.ops[i].state == 3,
+            None => false,
+        }
+    }
+    fn find(&self, call: &Call, pred: &BytesN<32>, salt: u8) -> Option<usize> {
+        self.ops.iter().position(|o| &o.call == call && &o.pred == pred && o.salt == salt)
+    }
+    fn model_state(&self, i: usize) -> u32 {
+        let o = &self.ops[i];
+        match o.state {
+            0 => 0,
+            3 => 3,
+            _ => {
+                if self.su.w.ledger() >= o.ready {
+                    2
+                } else {
+                    1
+                }
+            }
+        }
+    }
+    fn random_call(&self, rng: &mut Rng) -> Call {
+        match rng.idx(10) {
+            0 | 1 => Call::Delay(*rng.pick(&[0u32, 1, 3, 5, 9])),
+            2 | 3 | 4 => Call::Grant(rng.idx(4), rng.idx(3)),
+            5 | 6 => Call::Revoke(rng.idx(4), rng.idx(3)),
+            7 => Call::SetRoleAdmin(rng.idx(3)),
+            _ => Call::Bump(1 + rng.idx(2) as u32),
+        }
+    }
+    /// Compare every getter with the model; false = diverged (history is abandoned).
+    fn compare(&self, rep: &mut Report, after: &str) -> bool {
+        let e = &self.su.w.env;
+        let mut ok = true;
+        for i in 0..self.ops.len() {
+            let got = op_state(&self.su, &self.ops[i].id);
+            let want = self.model_state(i);
+            rep.evaluations += 1;
+            ok &= rep.check("ref", got == want, "C09/ref/long/operation-state", || {
+                format!("after {after}: operation #{i} {:?} salt {} is in state {got}, model says {want} (0 unset, 1 waiting, 2 ready, 3 done); ready ledger {} now {}", self.ops[i].call, self.ops[i].salt, self.ops[i].ready, self.su.w.ledger())
+            });
+        }
+        let d: u32 = invoke(e, &self.su.c, "get_min_delay", args!(e)).unwrap();
+        ok &= rep.check("ref", d == self.min_delay, "C09/ref/long/min-delay", || format!("after {after}: minimum delay {d}, model {}", self.min_delay));
+        for a in 0..4 {
+            for r in 0..3 {
+                let h = invoke::<Option<u32>>(e, &self.su.c, "has_role", args!(e, self.acc[a], Symbol::new(e, ROLES[r]))).unwrap().is_some();
+                ok &= rep.check("ref", h == self.has[a][r], "C09/ref/long/role-table", || format!("after {after}: account {a} role {}: contract says {h}, model {}", ROLES[r], self.has[a][r]));
+            }
+        }
+        for k in 1..3u32 {
+            let n: u32 = invoke(e, &self.target, "count", args!(e, k)).unwrap();
+            ok &= rep.check("log", n == self.counts[k as usize], "C09/log/long/target-invocations", || format!("after {after}: target counter {k} is {n}, model {}", self.counts[k as usize]));
+        }
+        ok
+    }
+}
+
+fn long_history(rep: &mut Report, rng: &mut Rng, h: u64, steps: usize) {
+    rep.begin_history(h);
+    let with_exec = rng.chance(1, 2);
+    let su = setup(with_exec, 100);
+    let acc = [su.p.clone(), su.x.clone(), su.nx.clone(), su.s.clone()];
+    let target = su.w.env.register(CountTarget, ());
+    let mut m = Long { su, acc, target, has: [[false; 3]; 4], min_delay: 5, counts: [0; 3], ops: vec![] };
+    m.has[0][0] = true;
+    m.has[0][1] = true;
+    m.has[1][2] = with_exec;
+    let e = m.su.w.env.clone();
+    let zero = BytesN::from_array(&e, &[0u8; 32]);
+    let unknown = BytesN::from_array(&e, &[0xEEu8; 32]);
+    let saltb = |s: u8| BytesN::from_array(&e, &[s; 32]);
+    for step in 0..steps {
+        m.su.w.reset_budget();
+        let roll = rng.idx(100);
+        let what: String;
+        if roll < 33 {
+            // ---- schedule
+            let call = if !m.ops.is_empty() && rng.chance(1, 6) { m.ops[rng.idx(m.ops.len())].call.clone() } else { m.random_call(rng) };
+            let (pred, pred_idx) = match rng.idx(20) {
+                0 => (unknown.clone(), None),
+                1..=6 if !m.ops.is_empty() => {
+                    let i = rng.idx(m.ops.len());
+                    (m.ops[i].id.clone(), Some(i))
+                }
+                _ => (zero.clone(), None),
+            };
+            let salt = 1 + rng.idx(3) as u8;
+            let delay = match rng.idx(12) {
+                0 => 0,
+                1 | 2 => m.min_delay.saturating_sub(1),
+                3..=6 => m.min_delay,
+                7 | 8 => m.min_delay + 1,
+                9 => m.min_delay + 3,
+                10 => 5,
+                _ => if rng.chance(1, 4) { u32::MAX } else { 2 },
+            };
+            let j = if rng.chance(3, 4) { 0 } else { rng.idx(4) };
+            let signed = rng.chance(9, 10);
+            let (t, f, a) = m.call_parts(&call);
+            let sa: SVec<Val> = args!(&e, t, Symbol::new(&e, f), a, pred.clone(), saltb(salt), delay, m.acc[j]);
+            let existing = m.find(&call, &pred, salt);
+            let want = signed && m.has[j][0] && delay >= m.min_delay && existing.map_or(true, |i| m.ops[i].state == 0);
+            if signed {
+                m.su.w.auth(&[(m.acc[j].clone(), Inv::new(&m.su.c, "schedule_op", sa.clone()))]);
+            } else {
+                m.su.w.no_auth();
+            }
+            let got: Result<BytesN<32>, Fail> = invoke(&e, &m.su.c, "schedule_op", sa);
+            rep.evaluations += 1;
+            what = format!("schedule {call:?} pred={} salt={salt} delay={delay} by acct{j} signed={signed} (min delay {}) -> {}", if pred == zero { "none" } else if pred_idx.is_some() { "op" } else { "unknown" }, m.min_delay, tag(&got));
+            rep.op(format!("[{step}] L{} {what}", m.su.w.ledger()));
+            rep.case(format!("long/schedule/role={}/signed={signed}/delay_ok={}/fresh={}/{}", m.has[j][0], delay >= m.min_delay, existing.map_or(true, |i| m.ops[i].state == 0), got.is_ok()));
+            rep.check("ref", got.is_ok() == want, "C09/ref/long/schedule/outcome", || format!("{what}: expected ok={want}"));
+            if let Ok(id) = got {
+                let ready = m.su.w.ledger().saturating_add(delay);
+                match existing {
+                    Some(i) => {
+                        m.ops[i].state = 1;
+                        m.ops[i].ready = ready;
+                        m.ops[i].id = id;
+                    }
+                    None => m.ops.push(MOp { call, pred, pred_idx, salt, id, ready, state: 1 }),
+                }
+                rep.count("long_scheduled");
+            }
+        } else if roll < 70 {
+            // ---- attempt to run an administrative call (or execute_op for the external target)
+            let (call, mut mpred, mut msalt) = if !m.ops.is_empty() && rng.chance(4, 5) {
+                let o = &m.ops[rng.idx(m.ops.len())];
+                (o.call.clone(), o.pred.clone(), o.salt)
+            } else {
+                (m.random_call(rng), zero.clone(), 1 + rng.idx(3) as u8)
+            };
+            let shape = *rng.pick(&["proper", "proper", "proper", "proper", "proper", "proper", "wrong_salt", "wrong_pred", "empty", "two", "no_entry"]);
+            match shape {
+                "wrong_salt" => msalt = 1 + (msalt % 3),
+                "wrong_pred" => mpred = if mpred == zero { unknown.clone() } else { zero.clone() },
+                _ => {}
+            }
+            let xj: Option<usize> = if rng.chance(1, 8) { None } else if rng.chance(2, 3) { Some(1) } else { Some(rng.idx(4)) };
+            let xsigned = rng.chance(9, 10);
+            let (t, f, a) = m.call_parts(&call);
+            let entry = m.find(&call, &mpred, msalt);
+            let exec_ok = !m.executors_configured() || xj.map_or(false, |j| m.has[j][2] && xsigned);
+            let one_meta = shape == "proper" || shape == "wrong_salt" || shape == "wrong_pred";
+            let op_ok = entry.map_or(false, |i| m.model_state(i) == 2 && m.pred_done(&m.ops[i], &zero));
+            let id_obs: BytesN<32> = invoke(&e, &m.su.c, "hash_operation", args!(&e, t, Symbol::new(&e, f), a.clone(), mpred.clone(), saltb(msalt))).unwrap();
+            let executor = xj.map(|j| m.acc[j].clone());
+            if let Call::Bump(k) = call {
+                // external target: through execute_op; descriptor shapes do not apply
+                let xa: SVec<Val> = args!(&e, t, Symbol::new(&e, f), a.clone(), mpred.clone(), saltb(msalt), executor.clone());
+                let st0 = { let su = &m.su; op_state(su, &id_obs) };
+                match (&executor, xsigned) {
+                    (Some(x), true) => m.su.w.auth(&[(x.clone(), Inv::new(&m.su.c, "execute_op", xa.clone()))]),
+                    _ => m.su.w.no_auth(),
+                }
+                let got: Result<Val, Fail> = invoke(&e, &m.su.c, "execute_op", xa);
+                rep.evaluations += 1;
+                let st1 = op_state(&m.su, &id_obs);
+                let want = op_ok && exec_ok;
+                what = format!("execute_op bump({k}) pred={} salt={msalt} executor={xj:?} signed={xsigned} -> {} (state {st0}->{st1})", if mpred == zero { "none" } else { "some" }, tag(&got));
+                rep.op(format!("[{step}] L{} {what}", m.su.w.ledger()));
+                rep.case(format!("long/execute_op/op_ok={op_ok}/exec_ok={exec_ok}/{}", got.is_ok()));
+                if got.is_ok() {
+                    rep.check("bypass", st0 == 2 && st1 == 3, "C09/bypass/long/execute_op/ran-without-consuming-ready-op", || format!("{what}"));
+                }
+                rep.check("ref", got.is_ok() == want, "C09/ref/long/execute_op/outcome", || format!("{what}: expected ok={want}"));
+                if got.is_ok() {
+                    if let Some(i) = entry {
+                        m.ops[i].state = 3;
+                    }
+                    m.counts[k as usize] += 1;
+                    rep.count("long_execute_ok");
+                }
+            } else if rng.chance(1, 10) {
+                // a self-administration operation pushed through execute_op: re-entry, must fail
+                let xa: SVec<Val> = args!(&e, t, Symbol::new(&e, f), a.clone(), mpred.clone(), saltb(msalt), executor.clone());
+                e.mock_all_auths_allowing_non_root_auth();
+                let got: Result<Val, Fail> = invoke(&e, &m.su.c, "execute_op", xa);
+                rep.evaluations += 1;
+                what = format!("execute_op on the controller itself: {call:?} -> {}", tag(&got));
+                rep.op(format!("[{step}] L{} {what}", m.su.w.ledger()));
+                rep.case(format!("long/execute_op-on-self/{}", got.is_ok()));
+                rep.check("bypass", got.is_err(), "C09/bypass/long/execute_op-on-self/passed", || what.clone());
+                if got.is_ok() {
+                    rep.end_history();
+                    return;
+                }
+            } else {
+                let good = OperationMeta { predecessor: mpred.clone(), salt: saltb(msalt), executor: executor.clone() };
+                let metas: Option<std::vec::Vec<OperationMeta>> = match shape {
+                    "empty" => Some(vec![]),
+                    "two" => Some(vec![good.clone(), good.clone()]),
+                    "no_entry" => None,
+                    _ => Some(vec![good.clone()]),
+                };
+                let psalt = saltb(msalt);
+                let exec_entry = match (&executor, xsigned) {
+                    (Some(x), true) => Some((x, &mpred, &psalt)),
+                    _ => None,
+                };
+                let st0 = op_state(&m.su, &id_obs);
+                let auth = build_auth(&m.su, f, &a, metas.as_deref(), exec_entry);
+                e.set_auths(&auth);
+                m.su.w.reset_budget();
+                let got: Result<Val, Fail> = invoke(&e, &m.su.c, f, a.clone());
+                rep.evaluations += 1;
+                let st1 = op_state(&m.su, &id_obs);
+                let effect_valid = match call {
+                    Call::Revoke(a, r) => m.has[a][r],
+                    _ => true,
+                };
+                let want = one_meta && op_ok && exec_ok && effect_valid;
+                what = format!("{call:?} with descriptor {shape} (pred={} salt={msalt}) executor={xj:?} signed={xsigned} executors_configured={} -> {} (state {st0}->{st1})", if mpred == zero { "none" } else { "some" }, m.executors_configured(), tag(&got));
+                rep.op(format!("[{step}] L{} {what}", m.su.w.ledger()));
+                rep.case(format!("long/admin/{f}/{shape}/op_ok={op_ok}/exec_ok={exec_ok}/valid={effect_valid}/{}", got.is_ok()));
+                if got.is_ok() {
+                    rep.check("bypass", one_meta && st0 == 2 && st1 == 3, &format!("C09/bypass/long/{f}/passed-without-consuming-ready-op"), || what.clone());
+                    rep.check("bypass", exec_ok, &format!("C09/bypass/long/{f}/passed-without-executor"), || what.clone());
+                } else {
+                    rep.check("res", st0 == st1, &format!("C09/res/long/{f}/refused-call-changed-operation-state"), || what.clone());
+                }
+                rep.check("ref", got.is_ok() == want, &format!("C09/ref/long/{f}/outcome"), || format!("{what}: expected ok={want}"));
+                if got.is_ok() {
+                    if let Some(i) = entry {
+                        m.ops[i].state = 3;
+                    }
+                    match call {
+                        Call::Delay(d) => m.min_delay = d,
+                        Call::Grant(a, r) => m.has[a][r] = true,
+                        Call::Revoke(a, r) => m.has[a][r] = false,
+                        _ => {}
+                    }
+                    rep.count("long_admin_ok");
+                }
+            }
+        } else if roll < 80 && !m.ops.is_empty() {
+            // ---- cancel
+            let i = rng.idx(m.ops.len());
+            let j = if rng.chance(2, 3) { 0 } else { rng.idx(4) };
+            let signed = rng.chance(9, 10);
+            let ca: SVec<Val> = args!(&e, m.ops[i].id.clone(), m.acc[j]);
+            let pending = m.ops[i].state == 1;
+            let want = signed && m.has[j][1] && pending;
+            if signed {
+                m.su.w.auth(&[(m.acc[j].clone(), Inv::new(&m.su.c, "cancel_op", ca.clone()))]);
+            } else {
+                m.su.w.no_auth();
+            }
+            let got: Result<Val, Fail> = invoke(&e, &m.su.c, "cancel_op", ca);
+            rep.evaluations += 1;
+            what = format!("cancel #{i} by acct{j} signed={signed} -> {}", tag(&got));
+            rep.op(format!("[{step}] L{} {what}", m.su.w.ledger()));
+            rep.case(format!("long/cancel/role={}/signed={signed}/state={}/{}", m.has[j][1], m.model_state(i), got.is_ok()));
+            rep.check("ref", got.is_ok() == want, "C09/ref/long/cancel/outcome", || format!("{what}: expected ok={want}"));
+            if got.is_ok() {
+                m.ops[i].state = 0;
+            }
+        } else {
+            let d = *rng.pick(&[1u32, 1, 2, 4, 5, 8]);
+            m.su.w.set_ledger(m.su.w.ledger() + d);
+            what = format!("ledger +{d}");
+            rep.op(format!("[{step}] L{} {what}", m.su.w.ledger()));
+        }
+        if !m.compare(rep, &what) {
+            rep.count("long_history_abandoned_after_divergence");
+            break;
+        }
+    }
+    rep.end_history();
+}
+
+fn long_histories(cfg: &Cfg, rep: &mut Report) {
+    let nh = cfg.pick(12u64, 600);
+    let steps = cfg.pick(70usize, 140);
+    for k in 0..nh {
+        let h = 1_000_000 + k;
+        if !cfg.runs(h) {
+            continue;
+        }
+        let mut rng = Rng::for_history(cfg.seed, "C09", cfg.shard, h);
+        long_history(rep, &mut rng, h, steps);
+    }
+}
+
 pub fn run(cfg: &Cfg, rep: &mut Report) {
-    rep.rule = "Exhaustive sweep (split over shards): executors configured? x 6 admin-only entry points x operation state {unset,waiting,ready,done,cancelled} x payload shape {proper,empty,two,wrong_salt,wrong_pred,no_entry,other_call} x executor variant {proper,absent,not_executor,executor_unsigned}, each an end-to-end call on a fresh controller (admin = itself) with a hand-built authorization entry whose signature is the descriptor list; plus role gates of schedule/cancel/execute (caller x signed), operations scheduled with a (pending / done) predecessor against descriptors naming the right, no or another predecessor, direct __check_auth probes with 1-3 contexts against 0..n+1 descriptors, and a foreign-contract call (token transfer from the controller). Distinct case = the tuple + outcome; none is trivial.".into();
+    rep.rule = "Exhaustive sweep (split over shards): executors configured? x 6 admin-only entry points x operation state {unset,waiting,ready,done,cancelled} x payload shape {proper,empty,two,wrong_salt,wrong_pred,no_entry,other_call} x executor variant {proper,absent,not_executor,executor_unsigned}, each an end-to-end call on a fresh controller (admin = itself) with a hand-built authorization entry whose signature is the descriptor list; plus role gates of schedule/cancel/execute (caller x signed), operations scheduled with a (pending / done) predecessor against descriptors naming the right, no or another predecessor, direct __check_auth probes with 1-3 contexts against 0..n+1 descriptors, and a foreign-contract call (token transfer from the controller); plus long-lived controllers: seeded histories of schedule (self-administration calls update_delay / grant_role / revoke_role / set_role_admin and an external bump, with predecessors, salts 1..3, delays around the current minimum) / administrative call with descriptor shape x executor variant / execute_op / execute_op on the controller itself / cancel / ledger +1..8, against a model of operation table, minimum delay and role table, every getter compared after every step. Distinct case = the tuple + outcome; none is trivial.".into();
     systematic(cfg, rep);
     role_gates(cfg, rep);
     predecessor_cases(cfg, rep);
     multi_context(cfg, rep);
     foreign_context(cfg, rep);
+    long_histories(cfg, rep);
+    rep.floor_on("long_admin_ok", 20, &["long_admin_ok"]);
     rep.floor_on("proper_path_ok", 1, &["proper_path_ok"]);
 }
